@@ -9,6 +9,8 @@ import (
 	"sync"
 
 	"github.com/db47h/decimal"
+
+	"verif/harness/obs"
 )
 
 // goid returns the current goroutine's id (harness-only trick: parsed from the stack header).
@@ -69,6 +71,25 @@ func (m *machine) runPar(s M, enc *json.Encoder) {
 	decimal.VerifPoolEnable(true, hook)
 	defer decimal.VerifPoolEnable(true, nil)
 
+	// registers that no goroutine writes (shared operands): their raw observation (mantissa words included) is taken
+	// before the goroutines start and after they have all finished; "no operand is modified" is then checked by the
+	// specification on these two digests, whether or not the race detector happens to see the write
+	written := map[string]bool{}
+	for gi := range gs {
+		steps, _ := gs[gi].([]any)
+		for _, st := range steps {
+			if z, ok := st.(map[string]any)["z"].(string); ok {
+				written[z] = true
+			}
+		}
+	}
+	before := M{}
+	for _, n := range m.names {
+		if !written[n] {
+			before[n] = obs.Digest(obs.Of(m.regs[n]))
+		}
+	}
+
 	evs := make([][]M, len(gs))
 	var wg sync.WaitGroup
 	start := make(chan struct{})
@@ -124,7 +145,11 @@ func (m *machine) runPar(s M, enc *json.Encoder) {
 		}
 		enc.Encode(M{"op": op, "out": "ok", "g": pe.G, "buf": pe.Buf, "seq": pe.Seq})
 	}
-	end := M{"op": "ParEnd", "out": "ok", "ret": M{"truncated": truncated, "pool": len(pevs)}}
+	after := M{}
+	for n := range before {
+		after[n] = obs.Digest(obs.Of(m.regs[n]))
+	}
+	end := M{"op": "ParEnd", "out": "ok", "ret": M{"truncated": truncated, "pool": len(pevs), "before": before, "after": after}}
 	m.observe(end, m.names)
 	enc.Encode(end)
 }
